@@ -41,6 +41,11 @@ TPressure ==
     /\ Ev.dP >= Min2(prevD, 8) - 1                   \* refining the grid does not lose accuracy (up to saturation)
     /\ Ev.dGrad >= 9                                \* field gradient = exact derivative of the profile
     /\ Ev.paramsKept                                \* the evaluation used the wall shape it was given
+    \* the default step (multiplier 1) moves the wall to the action's minimum first: on a grid mapped to that wall the
+    \* identity holds for the moved wall too, with the gradient of the MOVED profile (6 digits measured >= 8)
+    /\ Ev.movedNear => Ev.dPmoved >= 6
+    \* the same wall on a grid with unequal tails (inside 3x): the tails cost at most two digits of the resolution
+    /\ Ev.dPtails >= Min2(Ev.dP, 8) - 2
     /\ prevD' = Ev.dP
     /\ UNCHANGED vars
 
